@@ -28,6 +28,9 @@ pub(crate) fn input_matches(mut input: Ref) -> io::Result<bool> {
 	match chunk {
 		Some(Ok(doc)) => Ok(doc.is_collection()),
 		Some(Err(err)) if err.kind() == io::ErrorKind::InvalidData => Ok(false),
+		// The encoder reports a truncated UTF-16 or UTF-32 code unit at the
+		// end of the input as UnexpectedEof.
+		Some(Err(err)) if err.kind() == io::ErrorKind::UnexpectedEof => Ok(false),
 		Some(Err(err)) => Err(err),
 		None => Ok(false),
 	}
